@@ -147,7 +147,7 @@ class Ctx:
         self.tlc_runs.append({"run": name, "distinct": r.distinct, "generated": r.generated,
                               "wall_s": round(r.wall, 1)})
 
-    def mc(self, relpath, cfg=None, workers=None, timeout=900, env=None, expect_invariants=(), name=None,
+    def mc(self, relpath, cfg=None, workers=None, timeout=7200, env=None, expect_invariants=(), name=None,
            extra=(), heap="6g"):
         """Model-check specs/<relpath> with cfg.  Returns TLCResult.  An invariant violation is
         returned to the caller (which decides: known finding about the faithful model, or violation)."""
@@ -169,7 +169,7 @@ class Ctx:
                            {"kind": "tlc-counterexample", "spec": relpath, "cfg": cfg, "text": r.trace_text()})
         return r
 
-    def table(self, relpath, cfg=None, env=None, timeout=900, workers=1, heap="6g"):
+    def table(self, relpath, cfg=None, env=None, timeout=7200, workers=1, heap="6g"):
         """TLC evaluates the spec over a finite domain and writes JSON to $OUT; returns parsed JSON."""
         out = os.path.join(self.tmp, "table_%d.json" % next(self._ctr))
         e = dict(env or {})
@@ -186,7 +186,7 @@ class Ctx:
         os.unlink(out)
         return data
 
-    def validate(self, relpath, cases, cfg=None, shards=None, timeout=1200, env=None, per_shard_min=50,
+    def validate(self, relpath, cases, cfg=None, shards=None, timeout=7200, env=None, per_shard_min=50,
                  heap="3g"):
         """Binding B: TLC evaluates the spec's verdict on every recorded case.
         cases: list of JSON-able dicts with unique 'id'.  The TLA+ module (cfg) must read
